@@ -166,8 +166,33 @@ def check_generic_lookup(ctx, prog):
     found = []
     ok_all = True
     detail = ''
+    sites = []          # (node whose enclosing `if` guards the value, the value)
     for r in rets:
         v = strip(r.ch[0])
+        rd = def_exprs(f, v['ref']['id']) if v.k == 'DeclRefExpr' and v['ref'].get('kind') == 'var' else []
+        if rd and any(strip(x).get('v') == -1 for x in rd) and not modified_other_than_defs(f, v['ref']['id'], rd):
+            # a result variable: "not found" by default, set where the match is seen.  Each such assignment is judged
+            # like a return of its value, provided nothing moves the scan or the result between it and the return
+            rid = v['ref']['id']
+            for a in f.body.walk():
+                if a.k == 'BinaryOperator' and a['op'] == '=' and strip(a.ch[0]).get('ref', {}).get('id') == rid and \
+                        strip(a.ch[1]).get('v') != -1:
+                    scan = {x['ref']['id'] for x in a.ch[1].walk() if x.k == 'DeclRefExpr' and x['ref'].get('kind') == 'var'}
+                    scan.add(rid)
+
+                    def moves(e, scan=scan):
+                        if e.k == 'CompoundAssignOperator' or (e.k == 'UnaryOperator' and e.get('op') in ('++', '--')) or \
+                                (e.k == 'BinaryOperator' and e.get('op') == '='):
+                            return strip(e.ch[0]).get('ref', {}).get('id') in scan
+                        return False
+                    if C.can_reach_after(f, a, moves):
+                        ok_all = False
+                        detail = 'after %s the scan goes on: a later row can replace the first match' % render(a)[:60]
+                    sites.append((a, a.ch[1]))
+        else:
+            sites.append((r, r.ch[0]))
+    for r, val in sites:
+        v = strip(val)
         if v.get('v') == -1:
             continue
         # must be a variable i, and the return must be control-dependent on
@@ -218,7 +243,7 @@ def check_generic_lookup(ctx, prog):
             ok_all = False
             detail = 'return %s is not guarded by strcmp(regArray[%s], itemName) == 0' % (
                 render(v), render(v))
-        found.append(r)
+        found.append(val)
     chk.ob('P3', 'generic:getIdFromName-returns-matching-index', ok_all and len(found) >= 1,
            f.where(), f.name, detail or 'no index-returning path found' if not found else detail,
            how='the only non -1 return is `return i` inside `if (strcmp(regArray[i], itemName) == 0)`')
@@ -227,8 +252,8 @@ def check_generic_lookup(ctx, prog):
     decls = [d for d in f.local_decls()]
     ok = True
     detail = ''
-    for r in found:
-        v = strip(r.ch[0])
+    for val in found:
+        v = strip(val)
         is_cursor = v.k == 'BinaryOperator'
         if is_cursor:
             tab = strip(v.ch[1])
